@@ -58,6 +58,12 @@ func c07scenario(second bool) {
 	err2 := s0.wa.BlockingReportNewValue(ctx, mkValue(s0.t, hval{setA: true, a: 9}))
 	zzverif.Assert(err2 == nil, "C07 a later blocking report failed")
 	zzverif.Assert(d.View().A == 9, "C07 a later blocking report was not stacked")
+	// and each later report gets its own verdict, not one left over from an earlier report
+	v3, s3 := d.ViewVersion()
+	err3 := s0.wa.BlockingReportNewValue(ctx, mkValue(s0.t, hval{setA: true, a: 11, setBad: true, bad: true}))
+	zzverif.Assert(err3 != nil && errors.Is(err3, errInvalid), "C04 a blocking report of an invalid value did not return the Verify error (after an earlier report was abandoned)")
+	v4, s4 := d.ViewVersion()
+	zzverif.Assert(v4 == v3 && s4.s == s3.s, "C04 a rejected update changed the view or the serial")
 	zzverif.Reached("c07-end")
 }
 
